@@ -11,7 +11,7 @@ import math
 import numpy as np
 from hypothesis import strategies as st
 
-from vp.api import Subcheck, must, require
+from vp.api import Subcheck, must, require, sut
 from vp.gen import htmsets, sky
 from vp.oracle import htmtri, sphere
 
@@ -458,6 +458,12 @@ def check_bincount(case, ctx):
         kw["scale"] = t.scale_c
     if not case["getbins"]:
         kw["getbins"] = False
+    if int(case["nbin"]) % 2 == 1:
+        # the HTM object counted pairs against another second list before (the same positions in reverse order:
+        # same length, same range of ids): nothing of that call may be reused for the one judged below
+        r2 = np.asarray(t.ra2_c, dtype="f8")[::-1].copy()
+        d2 = np.asarray(t.dec2_c, dtype="f8")[::-1].copy()
+        sut(h.bincount, t.rmin, t.rmax, t.nbin, t.ra1_c, t.dec1_c, r2, d2, **kw)
     res = must(h.bincount, t.rmin, t.rmax, t.nbin, t.ra1_c, t.dec1_c, t.ra2_c, t.dec2_c, **kw)
     if case["getbins"]:
         require(isinstance(res, tuple) and len(res) == 3, "bincount(getbins=True) must return (lower,upper,counts)")
